@@ -72,7 +72,8 @@ def gen(seed, tier):
             'adversarial': r.random() < 0.6,
             'push': r.random() < 0.25,
             'bufsize': r.choice((64, 512, 8192, 65536)),
-            'tick': r.choice((0.37, 0.37, 1e-7, 45.0)), 'tier': tier}
+            'tick': r.choice((0.37, 0.37, 1e-7, 45.0)), 'tier': tier,
+            'changes_gc': r.random() < 0.7}
 
 
 def run(case):
@@ -84,7 +85,9 @@ def run(case):
                                clock={'tick': case['tick']}))
     kind = 'demo:%s:%s' % (case['bk'], case['ck'])
     try:
-        d = Driver(sim, kind, opts={'base_ops': case['base_ops']})
+        d = Driver(sim, kind, opts={'base_ops': case['base_ops'],
+                                    'changes_pack_gc':
+                                    case.get('changes_gc', False)})
     except Violation as e:
         return {'violations': [{'oracle': 'base:' + e.oracle,
                                 'detail': str(e.detail)}], 'stats': {},
@@ -113,10 +116,12 @@ def run(case):
         for i, op in enumerate(case['ops']):
             if op['op'] == 'demopack':
                 have = {o for o in d.model.oids() if d.model.revisions(o)}
-                if any(x not in have for t in d.model.txns
-                       for rr in t.recs for x in rr.refs):
-                    # references to objects that exist in neither layer:
-                    # an application error, such histories are not packed
+                if b'\0' * 8 not in have or any(
+                        x not in have for t in d.model.txns
+                        for rr in t.recs for x in rr.refs):
+                    # references to objects that exist in neither layer, or
+                    # no root object: an application error, such histories
+                    # are not packed
                     d.outcomes.append('demopack-skipped')
                     continue
                 # objects reachable from the root (the rest is garbage a
@@ -127,8 +132,20 @@ def run(case):
                 try:
                     d.st.pack(sim.clock.now + 50, referencesf)
                     d.outcomes.append('demopack')
+                except KeyError as e:
+                    # the garbage collection of a temporary changes layer
+                    # follows references in that layer only and gives up
+                    # at the first one that leads into the base; the
+                    # property promises nothing about a pack succeeding,
+                    # only that reads and the base stay as they were
+                    # (checked below)
+                    d.outcomes.append('demopack-refused:' + type(e).__name__)
                 except Exception as e:      # noqa: B902
                     d.outcomes.append('demopack-raises:' + type(e).__name__)
+                    d.flag('demo-pack-raises', 'pack through the demo '
+                           'storage (changes: %s) raised %s: %s'
+                           % (case['ck'], type(e).__name__, str(e)[:80]))
+                    break
                 # current state of every object is unaffected
                 for oid, want in zip(live, before):
                     try:
